@@ -26,6 +26,7 @@ import (
 	sqljson "github.com/dolthub/go-mysql-server/sql/expression/function/json"
 	"github.com/dolthub/go-mysql-server/sql/types"
 
+	"github.com/dolthub/dolt/go/libraries/utils/verifhook"
 	"github.com/dolthub/dolt/go/store/val"
 )
 
@@ -200,6 +201,7 @@ func tryWithFallback(
 	fallbackFunc func(document types.JSONDocument) error) error {
 	err := tryFunc()
 	if err == unknownLocationKeyError || err == unsupportedPathError || err == jsonParseError {
+		verifhook.Emit("json.fallback", "fallback")
 		if err != unsupportedPathError {
 			if sqlCtx, ok := ctx.(*sql.Context); ok {
 				sqlCtx.GetLogger().Warn(err)
